@@ -66,6 +66,7 @@ Fixpoint js_eqb (a b : js) {struct a} : bool :=
                | KwDepReq x, KwDepReq y | KwDependencies x, KwDependencies y => depreq_eqb x y
                | KwRef _ x, KwRef _ y => String.eqb x y
                | KwNullable, KwNullable => true
+               | KwAnnot x, KwAnnot y => String.eqb x y
                | _, _ => false
                end) ks' && all r
          end) ks
